@@ -230,12 +230,19 @@ def forced_recover_admin(R, env, prog, dctx, arm, rule):
     hk = arm["handlers"][0]
     hctx = handler_ctx(prog, dctx, arm)
     rem, n = world_edges(hctx, selected_packets_pred, True)
-    R.floor(rule, "tests of selected_packets in recover", n, 1)
     R.worlds += 2
     w = hctx.with_removed(rem).settle()
     found = []
     ok, off = guarded(w, admin_guard(prog, "staking"), prog, env.depth, found)
+    if not ok:
+        # the check may sit in the dispatcher arm (`if selected_packets.is_some() { assert_admin()? } recover(..)`):
+        # the arm and the handler together, in the world selected_packets = Some
+        ok2, off2 = arm_guarded(prog, dctx.assume_ok(selected_packets_pred, True), arm, admin_guard(prog, "staking"), env.depth, found)
+        if ok2:
+            ok, off = True, None
+            n = max(n, 1)
     R.ob(rule, "RecoverPendingIbcTransfers:forced=>admin", ok, "in the world selected_packets=Some a success exit is reachable without assert_admin: %s" % (off,), loc=off["loc"] if off else None, fn=hk, found=found)
+    R.floor(rule, "tests of selected_packets in recover", n, 1)
     # the non-forced world must remain open to everyone (no false claim): it has a success exit
     rem2, _ = world_edges(hctx, selected_packets_pred, False)
     w2 = hctx.with_removed(rem2)
